@@ -44,4 +44,14 @@ def for_property(prop: str):
     sctp = dict(basic)
     sctp.update({"set": sx_set, "dict": sx_dict})
     mods["aiortc.rtcsctptransport"] = Profile(sctp, rewrite={"join", "containers"})
+    recv = {
+        "int": shims.sx_int,
+        "bytes": shims.sx_bytes,
+        "range": shims.sx_range,
+        "min": shims.sx_min,
+        "max": shims.sx_max,
+        "set": sx_set,
+        "dict": sx_dict,
+    }
+    mods["aiortc.rtcrtpreceiver"] = Profile(recv, rewrite={"join", "containers"})
     return {"modules": mods, "default": None}
